@@ -36,6 +36,8 @@ pub struct MockCtl {
     pub tag_hang: AtomicBool,
     /// answer the health check `;` with an error + close
     pub hc_fail: AtomicBool,
+    /// close the connection when a Parse arrives (the server breaks while a statement is being prepared)
+    pub close_on_parse: AtomicBool,
     /// what to do in the middle of a client-tagged reply that is at least `mid_after` bytes long
     pub mid_mode: AtomicU8,
     pub mid_after: AtomicU64,
@@ -78,6 +80,7 @@ impl MockCtl {
             hc_hang: AtomicBool::new(false),
             tag_hang: AtomicBool::new(false),
             hc_fail: AtomicBool::new(false),
+            close_on_parse: AtomicBool::new(false),
             mid_mode: AtomicU8::new(MID_NONE),
             mid_after: AtomicU64::new(0),
             mid_once: AtomicBool::new(false),
@@ -105,6 +108,7 @@ impl MockCtl {
         self.hc_hang.store(false, Ordering::SeqCst);
         self.tag_hang.store(false, Ordering::SeqCst);
         self.hc_fail.store(false, Ordering::SeqCst);
+        self.close_on_parse.store(false, Ordering::SeqCst);
         self.mid_mode.store(MID_NONE, Ordering::SeqCst);
         self.mid_once.store(false, Ordering::SeqCst);
         self.slow_ms.store(0, Ordering::SeqCst);
@@ -861,6 +865,9 @@ impl Session {
         if m.typ != b'X' {
             // (the pooler's parting Terminate is handled whenever this thread gets scheduled)
             self.last_msg_ns = now_ns();
+        }
+        if m.typ == b'P' && self.ctl.close_on_parse.load(Ordering::SeqCst) {
+            return Flow::Close("fault: closed on Parse".into());
         }
         self.seq += 1;
         let seq = self.seq;
